@@ -20,7 +20,7 @@ def NoRaiseCX : Prog → Prop
   | .seq a b => NoRaiseCX a ∧ NoRaiseCX b
   | .block _ _ _ b => NoRaiseCX b
   | .tryCatch b _ h => NoRaiseCX b ∧ NoRaiseCX h
-  | .group _ b => NoRaiseCX b
+  | .group _ _ b => NoRaiseCX b
 
 def IsCX (r : Res) : Prop := r = some .cancelled ∨ r = some .tce
 
@@ -89,19 +89,25 @@ theorem sweep_attr (R : List (Nat × Nat)) (r : Res) (s0 s : TS) (h : Attr s0 s 
       exact ⟨m, by rw [this, hm], by rw [hd]; exact hmem⟩
     · exact ⟨by rw [hd, h.deadlines], hi, ha.1, ha.2⟩
 
-theorem gexit_attr (T : Int) (ms : List (Nat × Nat)) (r : Res) (s0 s : TS) (h : Attr s0 s r) :
-    Attr s0 (gexit T ms r s).2.1 (gexit T ms r s).1 := by
+theorem gexit_attr (anyp : Bool) (T : Int) (ms : List (Nat × Nat)) (r : Res) (s0 s : TS)
+    (h : Attr s0 s r) : Attr s0 (gexit anyp T ms r s).2.1 (gexit anyp T ms r s).1 := by
   unfold gexit
   split
   · exact sweep_attr _ _ s0 s h
   · split
     · exact h
-    · have hd := doSleep_deadlines s (T + maxNat (ms.map (·.1)) - s.now).toNat
-      have hi := doSleep_inv s (T + maxNat (ms.map (·.1)) - s.now).toNat h.inv
-      have ha := doSleep_attr s (T + maxNat (ms.map (·.1)) - s.now).toNat h.inv h.noCancel
-      split <;> rename_i heq <;> rw [heq] at hd hi ha <;> simp only [] at hd hi ha
-      · exact ⟨by rw [hd, h.deadlines], hi, ha.1, fun hcx => by simp [IsCX] at hcx⟩
-      · exact sweep_attr _ _ s0 _ ⟨by rw [hd, h.deadlines], hi, ha.1, ha.2⟩
+    · split
+      · exact sweep_attr _ _ s0 s h
+      · generalize (T + (if anyp then minNat (ms.map (·.1)) else maxNat (ms.map (·.1))) - s.now).toNat = dj
+        have hd := doSleep_deadlines s dj
+        have hi := doSleep_inv s dj h.inv
+        have ha := doSleep_attr s dj h.inv h.noCancel
+        split <;> rename_i heq <;> rw [heq] at hd hi ha <;> simp only [] at hd hi ha
+        · have hn : Attr s0 _ none := ⟨by rw [hd, h.deadlines], hi, ha.1, fun hcx => by simp [IsCX] at hcx⟩
+          split
+          · exact sweep_attr _ _ s0 _ hn
+          · exact hn
+        · exact sweep_attr _ _ s0 _ ⟨by rw [hd, h.deadlines], hi, ha.1, ha.2⟩
 
 theorem aexit_cancelAt (fixed ig : Bool) (self : Int) (r : Res) (s : TS) :
     (aexit fixed ig self r s).2.2.cancelAt = s.cancelAt := by
@@ -205,10 +211,10 @@ theorem run_attr (p : Prog) : ∀ (s : TS), NoRaiseCX p → Inv s → s.cancelAt
     refine ⟨?_, aexit_inv _ _ _ _ _, ?_, aexit_attr ig _ s _ _ hds hbody.attr⟩
     · rw [aexit_deadlines, hds]; simp
     · rw [aexit_cancelAt]; exact hbody.noCancel
-  | group ms body ih =>
+  | group anyp ms body ih =>
     intro s hp hI hc
     simp only [run]
-    exact gexit_attr s.now ms _ s _ (ih s hp hI hc)
+    exact gexit_attr anyp s.now ms _ s _ (ih s hp hI hc)
 
 /-- **No cancellation escapes the blocks.**  A program that raises no cancellation of its own,
 run as a task that nobody cancels from outside, never ends with `CancelledError` or
@@ -229,6 +235,6 @@ theorem no_stray_cancellation (p : Prog) (hp : NoRaiseCX p) (now : Int) :
 again by the re-armed past deadline - still nothing escapes -/
 example : (run true (.block false true 10 (.seq
       (.tryCatch (.sleep 100) [.cancelled] (.block false true 2 .skip))
-      (.group [(50, 8)] (.sleep 100)))) {}).1 = some .taskTimeout := by decide
+      (.group false [(50, 8)] (.sleep 100)))) {}).1 = some .taskTimeout := by decide
 
 end Aiorpcx.C11
